@@ -21,6 +21,8 @@ iter_unpack is a lenient decoder; templates assembled from literal pieces are re
 Round 6: assert statements are read as python -O reads them and an unbound local is a failure
 (defect F11 found this way); the file-backed raw returns what the file returned (no pre-sized
 buffer).
+Round 7: (v) a handler around a child parse that goes on without re-raising, for an exception class
+some reader raises; a strategy installed only for the end-of-string marker may read len(raw).
 """
 import ast
 
